@@ -222,6 +222,7 @@ def validate_trace(trace_module, ndjson, workdir, nshards=8, timeout=1500, cfg=N
         return job, res
 
     rejects = []
+    tnotes = {}
     applied = 0
     states = 0
     with ThreadPoolExecutor(max_workers=len(jobs)) as ex:
@@ -234,13 +235,19 @@ def validate_trace(trace_module, ndjson, workdir, nshards=8, timeout=1500, cfg=N
                 raise ToolError("trace validation stopped early on shard %d: line %d of %d" % (k, nxt, len(linemap)))
             applied += na
             states += res["distinct"]
+            for r in printed(res, "NOTE"):
+                try:
+                    nt = json.loads(r)["note"]
+                except Exception:
+                    nt = r
+                tnotes[nt] = tnotes.get(nt, 0) + 1
             for r in printed(res, "REJECT"):
                 d = json.loads(r)
                 hi, off = linemap[d["line"] - 1]
                 rejects.append(dict(hist=hi, offset=off, event=json.loads(hists[hi][off]), exp=d["exp"],
                                     history=[json.loads(x) for x in hists[hi]]))
     rejects.sort(key=lambda r: (r["hist"], r["offset"]))
-    return dict(histories=len(hists), events_applied=applied, rejects=rejects, states=states,
+    return dict(histories=len(hists), events_applied=applied, rejects=rejects, states=states, notes=tnotes,
                 accepted=len(hists) - len(set(r["hist"] for r in rejects)))
 
 
